@@ -746,3 +746,139 @@ def c08_matcher(tier, seed):
     return {'name': 'brute-force-matcher', 'evaluations': n, 'distinct_nontrivial': distinct, 'violations': viol, 'samples': samples,
             'bound': '%d fragments (<= 2 atoms, <= 1 constraint, all symbol classes/prefixes/suffixes/bond kinds/operators/negation/molecule prefixes; random layout and labels) x %d molecules of <= 7 heavy atoms' % (len(frags), len(mols)),
             'rule': 'a case is (fragment, molecule); fragments distinct by construction'}
+
+
+# ---------------------------------------------------------------------------------------------- C02 / C03 / C04
+def _norm(d):
+    return {k: v for k, v in d.items() if v != 0}
+
+
+def c02_reference(tier, seed):
+    """every shipped scheme read as a program by the independent interpreter (schemeref) on generated molecules: identical
+    descriptors, or both fail (pattern-match failure)"""
+    from . import schemeref as S
+    from rdkit import Chem
+    libs = real.LIBS if tier != 'quick' else ['BensonGA', 'GRWSurface2018', 'XieGA2022', 'SalciccioliGA2012']
+    viol, n, distinct, samples = [], 0, 0, []
+    for name in libs:
+        lib = real.load(name)
+        for smi in S.molecules_for(name, tier, seed):
+            n += 1
+            try:
+                want = ('ok', _norm(S.ref_descriptors(name, smi)))
+            except S.Fail as e:
+                want = ('fail', str(e))
+            got = S.real_descriptors(lib, smi)
+            if got[0] == 'ok':
+                got = ('ok', _norm(got[1]))
+            same = (got[0] == want[0]) and (got[0] == 'fail' or got[1] == want[1])
+            if got[0] == 'fail' and want[0] == 'fail' and got[1] != 'PatternMatchError':
+                same = False
+            if want[0] == 'ok':
+                distinct += 1
+            if not same:
+                m = Chem.AddHs(Chem.MolFromSmiles(smi))
+                cls = 'K2:fused-six-rings' if S.fused_six_rings(m) else None
+                if len(viol) < 15 or cls:
+                    viol.append({'id': '%s-%s' % (name, smi), 'cls': cls, 'input': {'library': name, 'smiles': smi}, 'observed': got, 'expected': want,
+                                 'script': "import pgradd.ThermoChem\nfrom pgradd.GroupAdd.Library import GroupLibrary\nprint(dict(GroupLibrary.Load(%r).GetDescriptors(%r)))  # expected %r\n" % (name, smi, want)})
+            elif len(samples) < 4 and want[0] == 'ok' and len(want[1]) > 2:
+                samples.append({'library': name, 'smiles': smi, 'descriptors': want[1]})
+    return {'name': 'scheme-reference-interpreter', 'evaluations': n, 'distinct_nontrivial': distinct, 'violations': viol, 'samples': samples,
+            'bound': 'generated molecules (<= 3-4 heavy atoms over C/O, rings, multiple bonds + curated aromatics/radicals/adsorbates) x %d schemes' % len(libs),
+            'rule': 'a case is (scheme, molecule); non-trivial = decomposable by the reference interpreter'}
+
+
+def c03_spellings(tier, seed):
+    """the same molecule written differently: random atom orders / branch orders / ring closures, explicit hydrogens, Kekule vs
+    aromatic spelling, molecule object vs string -> identical descriptors or the same failure"""
+    from . import schemeref as S
+    from rdkit import Chem
+    rnd = random.Random(seed)
+    libs = real.LIBS if tier != 'quick' else ['BensonGA', 'GRWSurface2018', 'XieGA2022']
+    k = 6 if tier == 'quick' else 25
+    viol, n, distinct, samples = [], 0, 0, []
+    for name in libs:
+        lib = real.load(name)
+        for smi in S.molecules_for(name, tier, seed):
+            base = S.real_descriptors(lib, smi)
+            m = Chem.MolFromSmiles(smi)
+            forms = [('random', s) for s in S.random_smiles(smi, k, seed)]
+            mh = Chem.AddHs(m)
+            forms.append(('explicit-H', Chem.MolToSmiles(mh, allHsExplicit=True)))
+            try:
+                mk = Chem.Mol(m)
+                Chem.Kekulize(mk, clearAromaticFlags=True)
+                forms.append(('kekule', Chem.MolToSmiles(mk, kekuleSmiles=True)))
+            except Exception:    # noqa
+                pass
+            forms.append(('mol-object', Chem.MolFromSmiles(smi)))
+            distinct += 1
+            fused = S.fused_six_rings(mh)
+            for kind, f in forms:
+                n += 1
+                got = S.real_descriptors(lib, f)
+                if got != base:
+                    cls = 'K2:fused-six-rings' if fused else None
+                    if len(viol) < 15 or cls:
+                        viol.append({'id': '%s-%s-%s' % (name, smi, kind), 'cls': cls, 'input': {'library': name, 'molecule': smi, 'form': kind, 'written': f if isinstance(f, str) else 'Chem.Mol'},
+                                     'observed': got, 'expected': base,
+                                     'script': "import pgradd.ThermoChem\nfrom pgradd.GroupAdd.Library import GroupLibrary\nlib = GroupLibrary.Load(%r)\nprint(dict(lib.GetDescriptors(%r)))\nprint(dict(lib.GetDescriptors(%r)))\n"
+                                               % (name, smi, f if isinstance(f, str) else smi)})
+            if len(samples) < 3:
+                samples.append({'library': name, 'molecule': smi, 'spellings': [f for kd, f in forms if isinstance(f, str)][:4]})
+    return {'name': 'spelling-invariance', 'evaluations': n, 'distinct_nontrivial': distinct, 'violations': viol, 'samples': samples,
+            'bound': '%d random spellings + explicit-H + Kekule + molecule-object per generated molecule x %d schemes' % (k, len(libs)),
+            'rule': 'a case is (molecule, spelling); molecules distinct'}
+
+
+def c04_mixtures(tier, seed):
+    """descriptors('A.B') = descriptors(A) + descriptors(B) (self-pairs included); a failing component makes the pair fail;
+    estimated H/RT, S/R, Cp/R of the pair are the sums"""
+    from . import schemeref as S
+    rnd = random.Random(seed)
+    libs = real.LIBS if tier != 'quick' else ['BensonGA', 'GRWSurface2018', 'XieGA2022']
+    viol, n, distinct, samples = [], 0, 0, []
+    for name in libs:
+        lib = real.load(name)
+        ms = S.molecules_for(name, tier, seed)
+        ms = ms if tier != 'quick' else rnd.sample(ms, min(14, len(ms)))
+        single = {s: S.real_descriptors(lib, s) for s in ms}
+        pairs = [(a, b) for a in ms for b in ms] if tier != 'quick' else [(a, b) for a in ms for b in rnd.sample(ms, 4)] + [(a, a) for a in ms]
+        for a, b in pairs:
+            n += 1
+            got = S.real_descriptors(lib, a + '.' + b)
+            da, db = single[a], single[b]
+            if da[0] == 'ok' and db[0] == 'ok':
+                want = dict(da[1])
+                for k_, v in db[1].items():
+                    want[k_] = want.get(k_, 0) + v
+                ok = got[0] == 'ok' and _norm(got[1]) == _norm(want)
+                distinct += 1
+                if ok and (n % 7 == 0):
+                    # estimates add up
+                    lib.name = a + '.' + b
+                    try:
+                        with real.quiet():
+                            ea, eb, ep = lib.Estimate(da[1], 'thermochem'), lib.Estimate(db[1], 'thermochem'), lib.Estimate(got[1], 'thermochem')
+                            r = ep.get_range() or (298.15, 298.15)
+                            T = r[0]
+                            for mth in ('get_HoRT', 'get_SoR', 'get_CpoR'):
+                                x, y, z = real.outcome(getattr(ea, mth), T), real.outcome(getattr(eb, mth), T), real.outcome(getattr(ep, mth), T)
+                                if x[0] == y[0] == z[0] == 'ok' and not real.close(x[1] + y[1], z[1], 1e-9, 1e-9):
+                                    ok = False
+                                    want = ('estimate', mth, x[1] + y[1])
+                                    got = ('estimate', mth, z[1])
+                    except Exception:    # noqa  (missing data for a group: outside this property)
+                        pass
+            else:
+                want = ('fail', 'a component cannot be decomposed')
+                ok = got[0] == 'fail'
+            if not ok and len(viol) < 15:
+                viol.append({'id': '%s-%s.%s' % (name, a, b), 'input': {'library': name, 'A': a, 'B': b}, 'observed': got, 'expected': want,
+                             'script': "import pgradd.ThermoChem\nfrom pgradd.GroupAdd.Library import GroupLibrary\nlib = GroupLibrary.Load(%r)\nfor s in (%r, %r, %r): print(dict(lib.GetDescriptors(s)))\n" % (name, a, b, a + '.' + b)})
+        if len(samples) < 3 and pairs:
+            samples.append({'library': name, 'pair': list(pairs[0])})
+    return {'name': 'mixture-additivity', 'evaluations': n, 'distinct_nontrivial': distinct, 'violations': viol, 'samples': samples,
+            'bound': 'ordered pairs (incl. self-pairs) of generated molecules x %d schemes' % len(libs),
+            'rule': 'a case is (scheme, A, B); non-trivial = both components decomposable'}
